@@ -191,6 +191,10 @@ def plan(tier, seed):
                     for o in range(8):
                         if nh == 2 and o not in (0, 3, 5, 6):
                             continue
+                        if tier == 'quick' and tuple(sizes) == (2, 2) and not same_commit and 'none' not in notes:
+                            # the four heaviest layouts (850 paths each): quick keeps one option set per note combination
+                            if o != {('note', 'note'): 3, ('renamed', 'note'): 0, ('note', 'renamed'): 6, ('renamed', 'renamed'): 5}[tuple(notes)]:
+                                continue
                         tasks.append(('overlay', {'sizes': list(sizes), 'notes': list(notes), 'same_commit': same_commit, 'opts': o}))
     for layout in ('fanout', 'deep'):
         for o in (0, 3, 6):
@@ -209,7 +213,21 @@ def plan(tier, seed):
             if commits[0] != 0:
                 continue
             tasks.append(('porcelain', {'sizes': sizes, 'commits': list(commits), 'previous': n % 2 == 0, 'boundary': n > 1}))
+            if n <= 2:
+                # a rename between the commits: git names a different originating path per group (C-quoted when unusual)
+                for fn in itertools.product(range(len(FNAMES)), repeat=n):
+                    if any(fn) and (tier != 'quick' or n == 1 or (tuple(fn) in ((0, 1), (1, 0), (2, 3)) and sizes != [2, 2])):
+                        tasks.append(('porcelain', {'sizes': sizes, 'commits': list(commits), 'previous': n % 2 == 0, 'boundary': n > 1, 'fnames': list(fn)}))
     return tasks
+
+
+def task_weight(t):
+    kind, sh = t
+    if kind == 'overlay':
+        return sum(sh['sizes']) * (1 if sh.get('same_commit') else 4) * (0 if 'none' in sh['notes'] else 1)
+    if kind == 'lookup':
+        return sum(a * b for _, a, b in sh['files']) * 2
+    return sum(sh.get('sizes', [0]))
 
 
 def ob_lookup(h, shape):
@@ -246,11 +264,15 @@ def ob_lookup(h, shape):
     h.sample = h.witness()
 
 
-def mk_hunk(M, fs, fe, os_, oe, sha, author):
+def mk_hunk(M, fs, fe, os_, oe, sha, author, orig_path=None):
+    kw = {}
+    if 'orig_path' in (M.src.struct_fields(HUNK) or []):
+        # the path git reported for the originating commit (porcelain `filename`); K4 decides that the reader fills it in
+        kw['orig_path'] = some(pystring(orig_path)) if orig_path is not None else none()
     return mk_struct(M, HUNK, range=tup(fs, fe), orig_range=tup(os_, oe), commit_sha=pystring(sha), abbrev_sha=pystring(sha[:7]),
                      original_author=pystring(author), author_email=pystring('a@b'), author_time=Sc(0, 64, True), author_tz=pystring('+0000'),
                      ai_human_author=none(), committer=pystring(author), committer_email=pystring('a@b'), committer_time=Sc(0, 64, True),
-                     committer_tz=pystring('+0000'), is_boundary=FALSE)
+                     committer_tz=pystring('+0000'), is_boundary=FALSE, **kw)
 
 
 def mk_options(M, by_hash, human_as_human, mark_unknown):
@@ -292,8 +314,10 @@ def ob_overlay(h, shape):
         oe = binop('Add', os_, Sc(size - 1, 32))
         prev_end = fe
         sha = 'c1c1' if (i == 0 or shape['same_commit']) else 'c2c2'
-        hunks.append(mk_hunk(M, fs, fe, os_, oe, sha, 'Alice'))
-        dh.append({'final_start': fs, 'orig_start': os_, 'size': size, 'commit': sha, 'note': shape['notes'][i]})
+        # git names, per hunk, the path the file had in the originating commit
+        path_then = 'old.rs' if shape['notes'][i] == 'renamed' else 'new.rs'
+        hunks.append(mk_hunk(M, fs, fe, os_, oe, sha, 'Alice', path_then))
+        dh.append({'final_start': fs, 'orig_start': os_, 'size': size, 'commit': sha, 'note': shape['notes'][i], 'orig_path': path_then})
         if sha not in notes:
             kind = shape['notes'][i]
             if kind == 'none':
@@ -324,7 +348,7 @@ def ob_overlay(h, shape):
         h.require(False, 'K3-ok', 'overlay returned Err')
         return
     line_authors = r.f[0].f[0]
-    known = [('renamed-file-looked-up-under-queried-path', z3.BoolVal(any(k == 'renamed' for k in shape['notes'])))]
+    known = []
     # every line of every hunk has exactly the author the property prescribes
     for i in range(nh):
         d = dh[i]
@@ -364,6 +388,10 @@ def ob_overlay(h, shape):
     h.sample = h.witness()
 
 
+# how git prints the originating path on the `filename` line, and the path it means (git C-quotes unusual names)
+FNAMES = [('f.rs', 'f.rs'), ('old.rs', 'old.rs'), ('"o\\303\\244 x.rs"', 'o\u00e4 x.rs'), ('dir/old name.rs', 'dir/old name.rs')]
+
+
 def ob_porcelain(h, shape):
     """K4: blame_hunks_for_ranges parses `git blame --line-porcelain`: every final line keeps the commit and
     the ORIGINAL line number git reported for it (the overlay looks the original number up in the note)"""
@@ -379,7 +407,8 @@ def ob_porcelain(h, shape):
     for i, n in enumerate(sizes):
         sha = shas[shape['commits'][i]]
         ostart = h.u32('o%d' % i, 1, LIM)
-        groups.append((sha, ostart, cur, n))
+        fprinted, fmeant = FNAMES[(shape.get('fnames') or [0] * len(sizes))[i]]
+        groups.append((sha, ostart, cur, n, fmeant))
         for j in range(n):
             o = binop('Add', ostart, Sc(j, 32))
             f = binop('Add', cur, Sc(j, 32))
@@ -390,11 +419,12 @@ def ob_porcelain(h, shape):
                 text += list(b'previous dddd4444 f.rs\n')
             if shape.get('boundary') and i == len(sizes) - 1:
                 text += list(b'boundary\n')
-            text += list(b'filename f.rs\n\tcontent 1 2 3\n')
+            text += list(b'filename ' + fprinted.encode() + b'\n\tcontent 1 2 3\n')
         cur = binop('Add', cur, Sc(n, 32))
     P.state['porcelain'] = text
     P.state['notes'] = {}
-    h.inputs_struct = {'groups': [[g[0], g[1], g[2], g[3]] for g in groups], 'previous': bool(shape.get('previous')), 'boundary': bool(shape.get('boundary'))}
+    h.inputs_struct = {'groups': [[g[0], g[1], g[2], g[3]] for g in groups], 'previous': bool(shape.get('previous')), 'boundary': bool(shape.get('boundary')),
+                       'fnames': list(shape.get('fnames') or [0] * len(sizes))}
     repo = Agg('git::repository::Repository', [])
     opts = mk_options(M, False, False, False)
     total = sum(sizes)
@@ -409,12 +439,14 @@ def ob_porcelain(h, shape):
         return
     hunks = r.f[0].e
     # for every final line of every group: exactly one hunk covers it, with that commit and that original line
-    for (sha, ostart, fs, n) in groups:
+    has_path = 'orig_path' in (M.src.struct_fields(HUNK) or [])
+    for (sha, ostart, fs, n, fmeant) in groups:
         for j in range(n):
             f = binop('Add', fs, Sc(j, 32))
             o = binop('Add', ostart, Sc(j, 32))
             cover = []
             right = []
+            named = []
             for hk in hunks:
                 rg = field(M, hk, HUNK, 'range')
                 og = field(M, hk, HUNK, 'orig_range')
@@ -423,9 +455,15 @@ def ob_porcelain(h, shape):
                 same_sha = bytes(concrete_bytes(as_bytes(field(M, hk, HUNK, 'commit_sha')))).decode() == sha
                 orig_of_f = binop('Add', og.f[0], binop('Sub', f, rg.f[0]))
                 right.append(z3.And(inside, z3.BoolVal(same_sha), binop('Eq', orig_of_f, o).z()))
+                if has_path:
+                    op = field(M, hk, HUNK, 'orig_path')
+                    same_path = op.var == 'Some' and bytes(concrete_bytes(as_bytes(op.f[0]))) == fmeant.encode()
+                    named.append(z3.And(inside, z3.BoolVal(same_path)))
             h.require(z3.PbEq([(c, 1) for c in cover], 1) if cover else False, 'K4-each-line-in-exactly-one-hunk', 'a blamed line is covered by no hunk or by several')
             h.require(z3.Or(right) if right else False, 'K4-line-keeps-commit-and-original-number',
                       'final line (group %s) is not reported with the commit and original line number git gave' % sha)
+            h.require((z3.Or(named) if named else False) if has_path else False, 'K4-line-keeps-the-path-git-reported',
+                      'final line (group %s) is not reported with the path the file had in the originating commit (%r); the note of that commit lists the file under that path' % (sha, fmeant))
     h.sample = h.witness()
 
 
@@ -539,6 +577,7 @@ def _replay_porcelain(v, native):
     inp = v['inputs']
     groups = inp['groups']
     text = ''
+    fn = inp.get('fnames') or [0] * len(groups)
     for gi, (sha, o, f, n) in enumerate(groups):
         sha40 = (sha * 5)[:40]
         for j in range(n):
@@ -548,7 +587,7 @@ def _replay_porcelain(v, native):
                 text += 'previous %s f.rs\n' % ('dddd4444' * 5)
             if inp.get('boundary') and gi == len(groups) - 1:
                 text += 'boundary\n'
-            text += 'filename f.rs\n\tcontent 1 2 3\n'
+            text += 'filename %s\n\tcontent 1 2 3\n' % FNAMES[fn[gi]][0]
     tmp = tempfile.mkdtemp(prefix='vc09p')
     try:
         repo = os.path.join(tmp, 'r')
@@ -579,7 +618,8 @@ def _replay_porcelain(v, native):
             return {'reproduced': v['obligation'] == 'K4-parse-ok', 'native': r}
         bad_cover = False
         bad_line = False
-        for (sha, o, f, n) in groups:
+        bad_path = False
+        for gi, (sha, o, f, n) in enumerate(groups):
             sha40 = (sha * 5)[:40]
             for j in range(n):
                 cov = [hk for hk in r['hunks'] if hk['range'][0] <= f + j <= hk['range'][1]]
@@ -587,7 +627,9 @@ def _replay_porcelain(v, native):
                     bad_cover = True
                 if not any(hk['sha'] == sha40 and hk['orig'][0] + (f + j - hk['range'][0]) == o + j for hk in cov):
                     bad_line = True
-        bad = {'K4-each-line-in-exactly-one-hunk': bad_cover, 'K4-line-keeps-commit-and-original-number': bad_line}
+                if not any(hk.get('orig_path') == FNAMES[fn[gi]][1] for hk in cov):
+                    bad_path = True
+        bad = {'K4-each-line-in-exactly-one-hunk': bad_cover, 'K4-line-keeps-commit-and-original-number': bad_line, 'K4-line-keeps-the-path-git-reported': bad_path}
         return {'reproduced': bool(bad.get(v['obligation'])), 'native': r}
     finally:
         subprocess.call(['rm', '-rf', tmp])
@@ -628,6 +670,78 @@ def _replay_json(v, native):
         subprocess.call(['rm', '-rf', tmp])
 
 
+RENAME_CASES = [
+    # (old path, new path, edit line 3 after the rename)
+    ('old.rs', 'new.rs', False),
+    ('old.rs', 'new.rs', True),
+    ('old.rs', 'sub dir/n\u00e4w.rs', False),
+    ('a/b/old.rs', 'old.rs', True),
+]
+H1 = 'h1h1h1h1h1h1h1h1'
+
+
+def _rename_history(native, old, new, edit_after):
+    """the real pipeline (real git blame, real porcelain reader, real overlay) on a history where an AI-written file
+    is renamed without its AI lines being edited: renaming changes no line's attribution"""
+    import os
+    import subprocess
+    import tempfile
+    tmp = tempfile.mkdtemp(prefix='vc09r')
+    env = dict(os.environ, GIT_AUTHOR_NAME='Alice', GIT_AUTHOR_EMAIL='a@b', GIT_COMMITTER_NAME='Alice', GIT_COMMITTER_EMAIL='a@b',
+               HOME=tmp, GIT_CONFIG_NOSYSTEM='1')
+    try:
+        _git(tmp, env, 'init', '-q', '.')
+        os.makedirs(os.path.dirname(os.path.join(tmp, old)), exist_ok=True)
+        open(os.path.join(tmp, old), 'w').write('a1\na2\nh3\nh4\nh5\nh6\nh7\nh8\n')
+        _git(tmp, env, 'add', '-A')
+        _git(tmp, env, 'commit', '-q', '-m', 'A')
+        sha = _git(tmp, env, 'rev-parse', 'HEAD').strip()
+        txt = native('c09_note_text', {'note': [{'file': old, 'hash': H1, 'ranges': [[1, 2]]}], 'base': sha})['text']
+        open(os.path.join(tmp, '.note'), 'w').write(txt)
+        _git(tmp, env, 'notes', '--ref=ai', 'add', '-f', '-F', '.note', sha)
+        os.unlink(os.path.join(tmp, '.note'))
+        os.makedirs(os.path.dirname(os.path.join(tmp, new)), exist_ok=True)
+        _git(tmp, env, 'mv', old, new)
+        _git(tmp, env, 'commit', '-q', '-m', 'rename only')
+        if edit_after:
+            open(os.path.join(tmp, new), 'w').write('a1\na2\nH3 edited\nh4\nh5\nh6\nh7\nh8\n')
+            _git(tmp, env, 'commit', '-q', '-a', '-m', 'human edit of line 3')
+        r = native('c09_blame', {'repo': tmp, 'file': new})
+        if 'panic' in r:
+            return True, r
+        authors = dict((a, b) for a, b in r.get('authors', []))
+        bad = authors.get(1) != H1 or authors.get(2) != H1 or any(authors.get(k) == H1 for k in range(3, 9))
+        return bad, r
+    finally:
+        subprocess.call(['rm', '-rf', tmp])
+
+
+def extra_checks(tier, seed, native):
+    """K3 takes the originating path from the hunk and K4 decides that the reader fills it in from git's `filename` line;
+    that the two compose on what a real git prints for a renamed file is checked here on concrete histories"""
+    import json
+    import os
+    from harness import driver
+    out = {'validated': 0, 'inconclusive': [], 'violations': []}
+    for n, (old, new, edit) in enumerate(RENAME_CASES):
+        try:
+            bad, r = _rename_history(native, old, new, edit)
+        except Exception as e:
+            out['inconclusive'].append('rename history %r -> %r could not be staged: %s: %s' % (old, new, type(e).__name__, e))
+            continue
+        if bad:
+            path = os.path.join(driver.EVID, 'replay', 'C09-rename-%d.json' % n)
+            os.makedirs(os.path.dirname(path), exist_ok=True)
+            with open(path, 'w') as f:
+                json.dump({'obligation': 'K3-line-is-ai-iff-note-lists-original-line', 'kind': 'property',
+                           'scenario': '%s (lines 1-2 by session h1) committed, `git mv` to %s%s, then blame the new path: lines 1-2 must be session h1, no other line may be'
+                                       % (old, new, ', a human edits line 3' if edit else ''), 'native': r}, f, indent=1)
+            out['violations'].append('VIOLATION property=C09 replay=%s' % path)
+        else:
+            out['validated'] += 1
+    return out
+
+
 def replay(v, native):
     if v['obligation'].startswith('K4-'):
         return _replay_porcelain(v, native)
@@ -655,25 +769,6 @@ def replay(v, native):
                    'K1-last-listing-entry-wins': got is not None and got != want,
                    'K1-author-is-session-tool': got is not None and r.get('author') != TOOLS.get(got)}
             return {'reproduced': bool(bad.get(ob)), 'native': r, 'expected': want}
-        if v.get('known') == 'renamed-file-looked-up-under-queried-path':
-            # the real history: an AI-written file is renamed without being edited
-            open(os.path.join(tmp, 'old.rs'), 'w').write('a1\na2\nh3\n')
-            _git(tmp, env, 'add', '-A')
-            _git(tmp, env, 'commit', '-q', '-m', 'A')
-            sha = _git(tmp, env, 'rev-parse', 'HEAD').strip()
-            txt = native('c09_note_text', {'note': [{'file': 'old.rs', 'hash': 'h1h1h1h1h1h1h1h1', 'ranges': [[1, 2]]}], 'base': sha})['text']
-            open(os.path.join(tmp, '.note'), 'w').write(txt)
-            _git(tmp, env, 'notes', '--ref=ai', 'add', '-f', '-F', '.note', sha)
-            os.unlink(os.path.join(tmp, '.note'))
-            _git(tmp, env, 'mv', 'old.rs', 'new.rs')
-            _git(tmp, env, 'commit', '-q', '-m', 'rename only')
-            r = native('c09_blame', {'repo': tmp, 'file': 'new.rs'})
-            if 'panic' in r:
-                return {'reproduced': True, 'native': r}
-            authors = dict((a, b) for a, b in r.get('authors', []))
-            # property: renaming without editing changes no line's attribution -> lines 1,2 are session h1
-            return {'reproduced': authors.get(1) != 'h1h1h1h1h1h1h1h1' or authors.get(2) != 'h1h1h1h1h1h1h1h1', 'native': r,
-                    'scenario': 'old.rs (lines 1-2 by session h1) committed, then `git mv old.rs new.rs`, then blame new.rs'}
         # overlay on real commits carrying the counterexample's notes
         shas = {}
         for name in sorted({hk['commit'] for hk in inp['hunks']}):
@@ -691,7 +786,7 @@ def replay(v, native):
                 stream = 'commit refs/notes/ai\ncommitter v <v@v> 1700000000 +0000\ndata 0\nfrom refs/notes/ai^0\nD %s\nM 100644 %s %s\n\n' % (sha_, blob, newp)
                 import subprocess as _sp
                 _sp.run(['git', 'fast-import', '--quiet'], cwd=tmp, env=env, input=stream.encode(), check=True, stdout=_sp.PIPE, stderr=_sp.PIPE)
-        hunks = [{'final_start': hk['final_start'], 'orig_start': hk['orig_start'], 'size': hk['size'], 'commit_sha': shas[hk['commit']]} for hk in inp['hunks']]
+        hunks = [{'final_start': hk['final_start'], 'orig_start': hk['orig_start'], 'size': hk['size'], 'commit_sha': shas[hk['commit']], 'orig_path': hk.get('orig_path')} for hk in inp['hunks']]
         r = native('c09_overlay', {'repo': tmp, 'file': inp['file'], 'hunks': hunks, 'options': inp['options']})
         if 'panic' in r:
             return {'reproduced': v['kind'] == 'panic', 'native': r}
